@@ -25,7 +25,7 @@ var introTypes = map[string][]ifield{
 	"__Type": {{"kind", "", false, false}, {"name", "", false, false}, {"description", "", false, false},
 		{"fields", "__Field", true, false}, {"interfaces", "__Type", false, false}, {"possibleTypes", "__Type", false, false},
 		{"enumValues", "__EnumValue", true, false}, {"inputFields", "__InputValue", false, false}, {"ofType", "__Type", false, false},
-		{"specifiedByURL", "", false, false}},
+		{"specifiedByURL", "", false, true}},
 	"__Field": {{"name", "", false, false}, {"description", "", false, false}, {"args", "__InputValue", false, false},
 		{"type", "__Type", false, false}, {"isDeprecated", "", false, false}, {"deprecationReason", "", false, false}},
 	"__InputValue": {{"name", "", false, false}, {"description", "", false, false}, {"type", "__Type", false, false}, {"defaultValue", "", false, false}},
